@@ -179,6 +179,32 @@ class ConnModel:
                 return EnumV(1, [Cell(("proto-value", label))])
             return f
 
+        def stream_query(label):
+            # Result<Option<VarInt>, ClosedStream>: Err(closed) / Ok(Some(code)) / Ok(None) = still open, nothing yet
+            def f(I, a, pth, c):
+                W.proto_calls.append(label)
+                k = pth.choose(3, "quinn-proto %s: stream gone / a code / nothing yet" % label)
+                if k == 0:
+                    return EnumV(1, [Cell(("closed-stream",))])
+                if k == 1:
+                    return EnumV(0, [Cell(EnumV(1, [Cell(("code",))]))])
+                return EnumV(0, [Cell(EnumV(0))])
+            return f
+
+        def s_write_fn(I, a, pth, c):
+            # the caller's write closure over quinn_proto::SendStream: Ok(written) / Err(Blocked) / Err(other)
+            W.proto_calls.append("write closure")
+            k = pth.choose(3, "write: ok / blocked / stopped-or-closed")
+            if k == 0:
+                return EnumV(0, [Cell(("written",))])
+            return EnumV(1, [Cell(("write-error", "Blocked" if k == 1 else "Stopped"))])
+
+        def s_write_err_convert(I, a, pth, c):
+            e = a[0]
+            if e[1] == "Blocked":
+                return EnumV(1, [Cell(UNIT)])               # Err(()): not an error to report, wait
+            return EnumV(0, [Cell(("WriteError", e[1]))])
+
         def s_opaque_bool(I, a, pth, c):
             return z3.BoolVal(pth.choose(2, "quinn-proto flag") == 1)
 
@@ -204,7 +230,13 @@ class ConnModel:
             (r"^quinn_proto::Connection::(?:datagrams|streams|side)$", s_handle),
             (r"^Datagrams::<'_>::recv$", proto("datagrams().recv()")), (r"^Streams::<'_>::open$", proto("streams().open()")),
             (r"^Streams::<'_>::accept$", proto("streams().accept()")),
-            (r"^quinn_proto::Connection::is_handshaking$|^quinn_proto::Side::is_client$", s_opaque_bool),
+            (r"^quinn_proto::Connection::is_handshaking$|^quinn_proto::Side::is_(?:client|server)$|^quinn_proto::Connection::accepted_0rtt$", s_opaque_bool),
+            (r"^quinn_proto::Connection::(?:send_stream|recv_stream)$", s_handle),
+            (r"^quinn_proto::SendStream::<'_>::stopped$", stream_query("send_stream().stopped()")),
+            (r"^quinn_proto::RecvStream::<'_>::received_reset$", stream_query("recv_stream().received_reset()")),
+            (r"^<F as FnOnce<\(quinn_proto::SendStream<'_>,\)>>::call_once$", s_write_fn),
+            (r"^<quinn_proto::WriteError as TryInto<send_stream::WriteError>>::try_into$", s_write_err_convert),
+            (r"^<connection::ConnectionError as Into<.*>>::into$", lambda I, a, pth, c: ("converted", a[0])),
             (r"^quinn_proto::Connection::close$|^Instant::now$", lambda I, a, pth, c: UNIT),
             (r" as Try>::branch$", s_try_branch), (r"^<Poll<Result<.*>> as FromResidual<.*>>::from_residual$", s_from_residual),
         ]
@@ -379,4 +411,63 @@ class ConnModel:
                      z3.BoolVal([(n, w) for (n, w) in held] == [("stream_opened", me)] and where == [d]))]
         return [("Ready: nothing is registered", z3.BoolVal(not held))]
 
-    CHECKS = ["terminate", "poll_recv_datagram", "poll_open_stream", "poll_accept_stream"]
+    # ------------------------------------------------------------------ stream-level futures (send_stream.rs / recv_stream.rs)
+    def _stream_poll(self, p, find, stream_fields, container, guard_first):
+        """one poll of a stream-level future before / after termination.  guard_first: the function returns the stored error before
+        asking quinn-proto (try_state); otherwise it may ask quinn-proto first but must look at the error before registering"""
+        W, I = self.world(p)
+        closed = p.choose(2, "polled before / after the connection was terminated") == 1
+        st, placed = self.state(p, error=("connection-error", "stored") if closed else None, populate=False)
+        conn = Ref(Cell(Struct({0: Cell(Struct({0: Cell(st)}))})))
+        fields = {0: Cell(conn), 1: Cell(("stream-id", 7)), 2: Cell(z3.BoolVal(False))}
+        fields.update(stream_fields)
+        stream = Struct(fields)
+        me = Wk("caller")
+        cx = Struct({0: Cell(Ref(Cell(me)))})
+        fn, args = find(stream, cx)
+        r = I.run_to_end(I.call_fn(fn, args, p))
+        self.encoded |= I.called
+        held = self.holders(st)
+        obs = []
+        if r.variant == 1:
+            obs.append(("Pending is answered only while the connection is alive: after termination nothing is registered and the future "
+                        "completes", z3.BoolVal(not closed)))
+            obs.append(("Pending: the caller's waker is registered in `%s`, which terminate() drains" % container,
+                        z3.BoolVal([(n, w) for (n, w) in held] == [(container, me)])))
+        else:
+            obs.append(("Ready: nothing is registered", z3.BoolVal(not held)))
+            if closed and guard_first:
+                obs.append(("after termination the stored error is returned without touching quinn-proto",
+                            z3.BoolVal(r.fields[0].v.variant == 1 and not W.proto_calls)))
+        return obs
+
+    def _closure_fn(self, prefix, name):
+        c = [f for k, f in self.fns.items() if k.startswith(prefix) and k.endswith("::" + name + "::{closure#0}::{closure#0}")]
+        if len(c) != 1:
+            raise Unsupported("cannot locate %s %s poll closure (%d)" % (prefix, name, len(c)))
+        return c[0]
+
+    def check_stream_stopped(self, p):
+        def find(stream, cx):
+            # edition-2021 closures capture the fields they use, by reference: (&conn, &stream, &is_0rtt)
+            clo = Struct({i: Cell(Ref(stream.f[i])) for i in (0, 1, 2)})
+            return self._closure_fn("send_stream::", "stopped"), [Ref(Cell(clo)), Ref(Cell(cx))]
+        return self._stream_poll(p, find, {}, "stopped", guard_first=False)
+
+    def check_stream_received_reset(self, p):
+        def find(stream, cx):
+            # captures (&conn, &stream, &is_0rtt, &reset)
+            clo = Struct({0: Cell(Ref(stream.f[0])), 1: Cell(Ref(stream.f[1])), 2: Cell(Ref(stream.f[2])), 3: Cell(Ref(stream.f[4]))})
+            return self._closure_fn("recv_stream::", "received_reset"), [Ref(Cell(clo)), Ref(Cell(cx))]
+        return self._stream_poll(p, find, {3: Cell(z3.BoolVal(False)), 4: Cell(EnumV(0))}, "readable", guard_first=False)
+
+    def check_stream_write(self, p):
+        def find(stream, cx):
+            c = [f for k, f in self.fns.items() if k.startswith("send_stream::") and k.endswith("::execute_poll_write")]
+            if len(c) != 1:
+                raise Unsupported("cannot locate SendStream::execute_poll_write (%d)" % len(c))
+            return c[0], [Ref(Cell(stream)), Ref(Cell(cx)), ("write-closure",)]
+        return self._stream_poll(p, find, {}, "writable", guard_first=True)
+
+    CHECKS = ["terminate", "poll_recv_datagram", "poll_open_stream", "poll_accept_stream", "stream_stopped", "stream_received_reset",
+              "stream_write"]
